@@ -1,0 +1,21 @@
+//go:build verif
+
+// Contracts for the verification machinery in /verif (govc). Comment-only file.
+
+package gorilla
+
+// one frame = one message is gorilla/websocket's contract (assumed); what is checked here is that the
+// connection is read under muRead and written under muWrite, so concurrent writers never interleave frames
+
+//@ func (*wsCodec).ReadMessage
+//@ property C17 C10
+//@ requires codec != nil && !held(codec.muRead)
+//@ callreq ReadJSON [one-reader-at-a-time] : held(codec.muRead)
+//@ ensures [unlocked] !held(codec.muRead)
+//@ ensures [message]  err == nil ==> result != nil
+
+//@ func (*wsCodec).WriteMessage
+//@ property C17 C10
+//@ requires codec != nil && !held(codec.muWrite)
+//@ callreq WriteJSON [writers-never-interleave] : held(codec.muWrite)
+//@ ensures [unlocked] !held(codec.muWrite)
